@@ -20,6 +20,7 @@ func init() {
 			{ID: "C03-R3", Doc: "terminal state writes are locked and broadcast", Run: c03r3},
 			{ID: "C03-R4", Doc: "bounded consecutive loss", Run: c03r4},
 			{ID: "C03-R5", Doc: "dependents released only by OK", Run: c03r5},
+			{ID: "C03-R6", Doc: "evaluator bookkeeping: pending/todo/wait-memo/dependency counts are maintained where the events happen", Run: c03r6},
 		},
 	})
 }
@@ -125,7 +126,7 @@ func c03r1(c *RC) {
 	}
 	isInitCmp := func(e ast.Expr) bool {
 		be, ok := ast.Unparen(e).(*ast.BinaryExpr)
-		return ok && be.Op == token.EQL && isStateField(be.X) && expr(be.Y) == "TaskInit"
+		return ok && be.Op == token.EQL && (isStateField(be.X) && expr(be.Y) == "TaskInit" || isStateField(be.Y) && expr(be.X) == "TaskInit")
 	}
 	var bad []string
 	var trail []string
@@ -609,12 +610,36 @@ func c03r4(c *RC) {
 		if !ok {
 			return true
 		}
-		if strings.HasSuffix(expr(be.X), ".consecutiveLost") && expr(be.Y) == "maxConsecutiveLost" {
+		op := be.Op
+		cnt, bound := be.X, be.Y
+		if strings.HasSuffix(expr(be.Y), ".consecutiveLost") {
+			cnt, bound = be.Y, be.X
+			op = map[token.Token]token.Token{token.LSS: token.GTR, token.GTR: token.LSS, token.LEQ: token.GEQ, token.GEQ: token.LEQ, token.EQL: token.EQL, token.NEQ: token.NEQ}[op]
+		}
+		if strings.HasSuffix(expr(cnt), ".consecutiveLost") && expr(bound) == "maxConsecutiveLost" {
 			trip = ifs
-			c.Check(be.Op == token.GEQ || be.Op == token.EQL, hq+"|trips-at-bound", pr.Pos(ifs.Pos()), "the loss counter is compared with "+be.Op.String()+" maxConsecutiveLost: the task is retried more often than the bound allows")
+			c.Check(op == token.GEQ || op == token.EQL, hq+"|trips-at-bound", pr.Pos(ifs.Pos()), "the loss counter is compared with "+op.String()+" maxConsecutiveLost: the task is retried more often than the bound allows")
 		}
 		return true
 	})
+	if trip != nil {
+		// the loss being handled is counted before the comparison
+		hfl := pr.Flow(host)
+		if tl, ok := hfl.LocOf(trip.Cond); ok {
+			dom, tr := hfl.Dominated(tl, func(n ast.Node, s *Step) bool {
+				inc, ok := n.(*ast.IncDecStmt)
+				if !ok || inc.Tok != token.INC {
+					return false
+				}
+				sel, ok := inc.X.(*ast.SelectorExpr)
+				return ok && pr.fieldQName(host.Pkg.FieldOf(sel)) == "exec.Task.consecutiveLost"
+			})
+			c.Check(dom, hq+"|loss-counted-before-the-bound-is-tested", pr.Pos(trip.Pos()),
+				"the loss counter is compared with the bound before the current loss has been counted: the task is resubmitted once more than the bound allows (the error is reported on the sixth consecutive loss)", tr...)
+		} else {
+			c.Undecide("%s: the bound test is not in the flow graph", hq)
+		}
+	}
 	if trip == nil {
 		c.Fail(hq+"|trips-at-bound", pr.Pos(host.Body.Pos()), "the loss counter is never compared with maxConsecutiveLost")
 		return
@@ -788,6 +813,64 @@ func c03r5(c *RC) {
 			}
 		}
 	}
+	// In the INIT/LOST arm the dependencies walked, the edges recorded and the
+	// bookkeeping cleared are those of the member whose state was switched on
+	// (not of the phase head the function was called with).
+	if enq := pr.Fn("exec.(*state).Enqueue"); enq != nil {
+		for _, sw := range stateSwitches(pr, enq) {
+			member := ""
+			if k, ok := ast.Unparen(sw.Tag).(*ast.CallExpr); ok {
+				if sel, ok := k.Fun.(*ast.SelectorExpr); ok {
+					if id, ok := sel.X.(*ast.Ident); ok {
+						member = id.Name
+					}
+				}
+			}
+			var memberObj types.Object
+			ast.Inspect(sw.Tag, func(n ast.Node) bool {
+				if id, ok := n.(*ast.Ident); ok && id.Name == member && memberObj == nil {
+					memberObj = enq.Pkg.Info.Uses[id]
+				}
+				return true
+			})
+			if memberObj == nil {
+				c.Undecide("%s: cannot identify the task whose state is switched on", enq.QName())
+				continue
+			}
+			for _, cs := range sw.Body.List {
+				cc := cs.(*ast.CaseClause)
+				isInit := false
+				for _, e := range cc.List {
+					if expr(e) == "TaskInit" || expr(e) == "TaskLost" {
+						isInit = true
+					}
+				}
+				if !isInit {
+					continue
+				}
+				var foreign []string
+				for _, st := range cc.Body {
+					ast.Inspect(st, func(n ast.Node) bool {
+						id, ok := n.(*ast.Ident)
+						if !ok {
+							return true
+						}
+						o := enq.Pkg.Info.Uses[id]
+						if o == nil || o == memberObj {
+							return true
+						}
+						if v, isVar := o.(*types.Var); isVar && typeString(v.Type()) == "*exec.Task" && v.Pos() < sw.Pos() {
+							// another *Task variable declared outside the switch (the parameter, an outer loop variable)
+							foreign = append(foreign, id.Name+" at "+pr.Pos(id.Pos()))
+						}
+						return true
+					})
+				}
+				c.Check(len(foreign) == 0, enq.QName()+"|arm:TaskInit,TaskLost|examines-the-member-itself", pr.Pos(cc.Pos()),
+					"the arm that decides whether a task is ready refers to another task than the one whose state it switched on ("+strings.Join(foreign, ", ")+"): readiness, recorded edges or cleared bookkeeping are those of the phase head, so members are handed out while their own dependency is INIT or LOST")
+			}
+		}
+	}
 	// Released dependents are re-examined, not started: a task whose last
 	// awaited dependency completed goes back through Enqueue (which looks at
 	// the current state of every dependency — one that completed earlier may
@@ -888,8 +971,38 @@ func c03r5(c *RC) {
 			}
 			return true
 		})
-		rv := recvOf(fn)
-		ok := strings.Contains(txt, rv+".err!=nil") && strings.Contains(txt, "len("+rv+".todo)==0") && strings.Contains(txt, "len("+rv+".pending)==0") && strings.Count(txt, "||") == 1 && strings.Count(txt, "&&") == 1
+		var res ast.Expr
+		ast.Inspect(fn.Body, func(n ast.Node) bool {
+			if r, ok := n.(*ast.ReturnStmt); ok && len(r.Results) == 1 {
+				res = r.Results[0]
+			}
+			return true
+		})
+		le := newLinEnv(pr, fn)
+		ok := res != nil
+		if res != nil {
+			for _, e := range []bool{false, true} {
+				for _, t := range []bool{false, true} {
+					for _, p := range []bool{false, true} {
+						v, known := evalCond(res, func(x ast.Expr) (bool, bool) {
+							if tx, nn, okN := nilTest(x); okN && canonText(fn, tx) == "$recv.err" {
+								return nn == e, true
+							}
+							if z, okZ := cmpAtomZero(le, x, "len($recv.todo)", t); okZ {
+								return z, true
+							}
+							if z, okZ := cmpAtomZero(le, x, "len($recv.pending)", p); okZ {
+								return z, true
+							}
+							return false, false
+						})
+						if !known || v != (e || (t && p)) {
+							ok = false
+						}
+					}
+				}
+			}
+		}
 		c.Check(ok, "exec.(*state).Done|done-iff-error-or-nothing-outstanding", pr.Pos(fn.Body.Pos()), "state.Done() is "+txt+"; it must be err != nil || (no todo && no pending): Eval would return success with tasks outstanding")
 	}
 }
@@ -953,7 +1066,7 @@ func c03runnerVar(host *Func) string {
 	for f := host; f != nil && f.Body != nil; f = f.Parent {
 		ast.Inspect(f.Body, func(n ast.Node) bool {
 			if a, ok := n.(*ast.AssignStmt); ok && len(a.Lhs) == 1 && len(a.Rhs) == 1 {
-				if be, ok := ast.Unparen(a.Rhs[0]).(*ast.BinaryExpr); ok && be.Op == token.EQL && strings.HasSuffix(expr(be.X), ".state") && expr(be.Y) == "TaskInit" {
+				if be, ok := ast.Unparen(a.Rhs[0]).(*ast.BinaryExpr); ok && be.Op == token.EQL && (strings.HasSuffix(expr(be.X), ".state") && expr(be.Y) == "TaskInit" || strings.HasSuffix(expr(be.Y), ".state") && expr(be.X) == "TaskInit") {
 					name = expr(a.Lhs[0])
 				}
 			}
